@@ -37,7 +37,7 @@ type Solver struct {
 }
 
 func NewSolver(timeoutMs int) *Solver {
-	s := &Solver{TimeoutMs: timeoutMs, Name: "z3"}
+	s := &Solver{TimeoutMs: timeoutMs, Name: "z3-new"}
 	s.start()
 	return s
 }
@@ -45,7 +45,7 @@ func NewSolver(timeoutMs int) *Solver {
 func (s *Solver) start() {
 	bin := os.Getenv("GOSX_Z3")
 	if bin == "" {
-		bin = "z3"
+		bin = "z3-new" // z3 5.1.0: z3 4.8.12 degrades badly over thousands of push/pop scopes with define-funs
 	}
 	s.cmd = exec.Command(bin, "-in")
 	var err error
@@ -163,9 +163,9 @@ func (s *Solver) Check() SatResult {
 }
 
 // GetModel fetches values of the given variables after a sat verdict.
-func (s *Solver) GetModel(vars []*Term) Model {
+func (s *Solver) GetModel(vars []*Term, apps []*Term) Model {
 	m := Model{}
-	if len(vars) == 0 {
+	if len(vars) == 0 && len(apps) == 0 {
 		return m
 	}
 	var sb strings.Builder
@@ -173,6 +173,9 @@ func (s *Solver) GetModel(vars []*Term) Model {
 	for _, v := range vars {
 		sb.WriteString(v.Name)
 		sb.WriteByte(' ')
+	}
+	for _, a := range apps {
+		fmt.Fprintf(&sb, "t%d ", a.id)
 	}
 	sb.WriteString("))\n")
 	s.Send(sb.String())
